@@ -260,7 +260,8 @@ class Base(_BaseClass):
         """
         if token:
             # CSS white space only, e.g. U+00A0 is part of an unquoted URL
-            value = token[1][4:-1].strip(' \t\r\n\f')
+            # the name before '(' may be longer than 'url' (``u\rl(``)
+            value = token[1][token[1].find('(') + 1 : -1].strip(' \t\r\n\f')
             if value and (value[0] in '\'"') and (value[0] == value[-1]):
                 # a string "..." or '...'
                 value = value.replace('\\' + value[0], value[0])[1:-1]
